@@ -106,7 +106,22 @@ def addrHint (implAns : String) : Nat :=
   | a :: _ => a
   | [] => 0
 
-def handle (m : Machine) (ws : List String) (implAns : String) : Machine × String :=
+/-- `@<int>` as a target means "current buffer address + int" (mapping addresses are not known to the generator) -/
+def resolveAt (m : Machine) (w : String) : String :=
+  match w.dropPrefix? "@" with
+  | some rest =>
+    match rest.toString.toInt? with
+    | some d =>
+      let base : Nat := match m.front with
+        | .exec a => a.mem.addr
+        | .vec a => a.base
+        | _ => 0
+      toString ((base : Int) + d).toNat
+    | none => w
+  | none => w
+
+def handle (m : Machine) (ws0 : List String) (implAns : String) : Machine × String :=
+  let ws := ws0.map (resolveAt m)
   match parseOp? ws with
   | none => (m, "= bad-op")
   | some op =>
